@@ -302,4 +302,142 @@ theorem crop_preserves_intersection (ps : Sz) (area : Rect) (p : Pt) :
   rw [Rect.mem_intersection, Rect.mem_intersection]
   exact crop_preserves_points ps area p
 
+
+/-! ## `draw_sub_image` called directly -/
+
+theorem dataWidth_ge {bits : Nat} (hv : validBits bits = true) (w : Nat) :
+    w ≤ ImageRaw.dataWidth ⟨bits, .le, [], ⟨w, 0⟩⟩ := by
+  have hc := validBits_cases hv
+  unfold ImageRaw.dataWidth
+  simp only
+  split
+  · unfold Img.bytesPerRow
+    rcases hc with h | h | h | h | h | h | h <;> subst h <;> omega
+  · exact Nat.le_refl _
+
+/-- What the guard of `draw_sub_image` decides and what it hands to `ContiguousPixels::new`, in
+unbounded integers (the plain `Img.ImageRaw.drawSubImage`). -/
+def plainSubImageSkips (im : ImageRaw) (area : Rect) : Option (Nat × Nat) :=
+  if area.isZeroSized = true ∨ area.tl.x < 0 ∨ area.tl.y < 0 ∨
+      area.tl.x.toNat + area.size.w > im.size.w ∨ area.tl.y.toNat + area.size.h > im.size.h then none
+  else some (area.tl.y.toNat * ImageRaw.dataWidth ⟨im.bits, .le, [], ⟨im.size.w, 0⟩⟩ + area.tl.x.toNat,
+    ImageRaw.dataWidth ⟨im.bits, .le, [], ⟨im.size.w, 0⟩⟩ - area.size.w)
+
+/-- **`ImageRaw::draw_sub_image` (as repaired) cannot panic for ANY area**: every `i32` corner,
+every `u32` size, an image up to 2^28 x 2^28 of any depth. The `u64` sums of two `u32` values
+always fit; behind the guard the area lies inside the image, so `data_width()` and both `usize`
+skips fit. -/
+theorem drawSubImageSkips_total {im : ImageRaw} (hv : validBits im.bits = true) (hw : im.size.w ≤ 268435456)
+    (hh : im.size.h ≤ 268435456) {area : Rect}
+    (hx : -2147483648 ≤ area.tl.x ∧ area.tl.x ≤ 2147483647)
+    (hy : -2147483648 ≤ area.tl.y ∧ area.tl.y ≤ 2147483647) (haw : area.size.w ≤ 4294967295)
+    (hah : area.size.h ≤ 4294967295) :
+    drawSubImageSkips im area = some (plainSubImageSkips im area) := by
+  obtain ⟨_, _⟩ := hx
+  obtain ⟨_, _⟩ := hy
+  obtain ⟨edw, hdw⟩ := imageDataWidth_ok hv hw
+  have hge := dataWidth_ge hv im.size.w
+  unfold drawSubImageSkips plainSubImageSkips
+  by_cases hz : area.isZeroSized = true
+  · simp [hz]
+  · by_cases hnx : area.tl.x < 0
+    · simp [hnx]
+    · by_cases hny : area.tl.y < 0
+      · simp [hny]
+      · have e1 : i32AsU32 area.tl.x = area.tl.x.toNat := i32AsU32_nonneg (by omega)
+        have e2 : i32AsU32 area.tl.y = area.tl.y.toNat := i32AsU32_nonneg (by omega)
+        simp only [hz, hnx, hny, or_self, e1, e2, false_or]
+        rw [chkU64_ok (by omega)]
+        simp only [Option.bind_eq_bind, Option.bind_some]
+        by_cases hxr : area.tl.x.toNat + area.size.w > im.size.w
+        · simp [hxr]
+        · simp only [hxr, ↓reduceIte, false_or]
+          rw [chkU64_ok (by omega)]
+          simp only [Option.bind_some]
+          by_cases hyb : area.tl.y.toNat + area.size.h > im.size.h
+          · simp [hyb]
+          · simp only [hyb, ↓reduceIte]
+            rw [edw]
+            simp only [Option.bind_some]
+            have hm : area.tl.y.toNat * ImageRaw.dataWidth ⟨im.bits, .le, [], ⟨im.size.w, 0⟩⟩ ≤
+                268435456 * (268435456 + 7) := Nat.mul_le_mul (by omega) hdw
+            rw [chkUsize_ok (by omega), Option.bind_some, chkUsize_ok (by omega), Option.bind_some,
+              subU_ok (by omega)]
+            rfl
+
+/-- **`SubImage::draw_sub_image` (as repaired) cannot panic for ANY area either**, and decides
+like the plain model on the corner `area + own corner` computed in unbounded integers: a corner
+that is not representable in `i32` is rejected by `checked_add`, and the plain guard rejects it
+too (negative, or beyond every image). -/
+theorem subDrawSubImageSkips_total {im : ImageRaw} (hv : validBits im.bits = true)
+    (hw : im.size.w ≤ 268435456) (hh : im.size.h ≤ 268435456) {own area : Rect}
+    (hox : -2147483648 ≤ own.tl.x ∧ own.tl.x ≤ 2147483647) (hoy : -2147483648 ≤ own.tl.y ∧ own.tl.y ≤ 2147483647)
+    (hx : -2147483648 ≤ area.tl.x ∧ area.tl.x ≤ 2147483647)
+    (hy : -2147483648 ≤ area.tl.y ∧ area.tl.y ≤ 2147483647) (haw : area.size.w ≤ 4294967295)
+    (hah : area.size.h ≤ 4294967295) :
+    subDrawSubImageSkips im own area = some (plainSubImageSkips im (area.translate own.tl)) := by
+  obtain ⟨_, _⟩ := hox
+  obtain ⟨_, _⟩ := hoy
+  obtain ⟨_, _⟩ := hx
+  obtain ⟨_, _⟩ := hy
+  have etx : (area.translate own.tl).tl.x = area.tl.x + own.tl.x := rfl
+  have ety : (area.translate own.tl).tl.y = area.tl.y + own.tl.y := rfl
+  have ets : (area.translate own.tl).size = area.size := rfl
+  have ez : (area.translate own.tl).isZeroSized = area.isZeroSized := rfl
+  unfold subDrawSubImageSkips subImageForwardArea
+  by_cases hfx : -2147483648 ≤ area.tl.x + own.tl.x ∧ area.tl.x + own.tl.x ≤ 2147483647
+  · by_cases hfy : -2147483648 ≤ area.tl.y + own.tl.y ∧ area.tl.y + own.tl.y ≤ 2147483647
+    · rw [chkI32_ok hfx.1 hfx.2, chkI32_ok hfy.1 hfy.2]
+      simp only
+      have e : (⟨⟨area.tl.x + own.tl.x, area.tl.y + own.tl.y⟩, area.size⟩ : Rect) = area.translate own.tl := rfl
+      rw [e]
+      exact drawSubImageSkips_total hv hw hh (by rw [etx]; exact hfx) (by rw [ety]; exact hfy)
+        (by rw [ets]; exact haw) (by rw [ets]; exact hah)
+    · rw [chkI32_ok hfx.1 hfx.2, chkI32_none (by omega)]
+      simp only [Option.pure_def, Option.some.injEq]
+      unfold plainSubImageSkips
+      rw [ety, etx, ets, ez]
+      rw [if_pos]
+      by_cases hneg : area.tl.y + own.tl.y < 0
+      · exact Or.inr (Or.inr (Or.inl hneg))
+      · by_cases hz : area.isZeroSized = true
+        · exact Or.inl hz
+        · exact Or.inr (Or.inr (Or.inr (Or.inr (by omega))))
+  · rw [chkI32_none (by omega)]
+    simp only [Option.pure_def, Option.some.injEq]
+    unfold plainSubImageSkips
+    rw [ety, etx, ets, ez]
+    rw [if_pos]
+    by_cases hneg : area.tl.x + own.tl.x < 0
+    · exact Or.inr (Or.inl hneg)
+    · exact Or.inr (Or.inr (Or.inr (Or.inl (by omega))))
+
+/-- Before a083ac5 the `u32` sum panicked for a non-negative corner and a huge width. -/
+theorem old_drawSubImageSkips_overflows :
+    Old.drawSubImageSkips ⟨1, .le, [], ⟨5, 3⟩⟩ ⟨⟨1, 0⟩, ⟨4294967295, 1⟩⟩ = none ∧
+    Old.drawSubImageSkips ⟨1, .le, [], ⟨5, 3⟩⟩ ⟨⟨0, 1⟩, ⟨1, 4294967295⟩⟩ = none ∧
+    drawSubImageSkips ⟨1, .le, [], ⟨5, 3⟩⟩ ⟨⟨1, 0⟩, ⟨4294967295, 1⟩⟩ = some none ∧
+    drawSubImageSkips ⟨1, .le, [], ⟨5, 3⟩⟩ ⟨⟨0, 1⟩, ⟨1, 4294967295⟩⟩ = some none := by
+  refine ⟨?_, ?_, ?_, ?_⟩ <;> decide
+
+/-- Before a083ac5 `area.translate(own corner)` panicked for a corner at `i32::MAX`; now the area
+is rejected. -/
+theorem old_subImageForwardArea_overflows :
+    Old.subImageForwardArea ⟨⟨1, 1⟩, ⟨3, 2⟩⟩ ⟨⟨2147483647, 0⟩, ⟨0, 0⟩⟩ = none ∧
+    subDrawSubImageSkips ⟨1, .le, [], ⟨5, 3⟩⟩ ⟨⟨1, 1⟩, ⟨3, 2⟩⟩ ⟨⟨2147483647, 0⟩, ⟨0, 0⟩⟩ = some none := by
+  constructor <;> decide
+
+/-- **Without the sign tests the old guard itself panics**: for a non-zero-sized area whose corner
+is negative by at most its width, `x as u32 + width` is at least 2^32. -/
+theorem Seeded.drawSubImageRejects_panics (im : ImageRaw) {area : Rect} (hz : area.isZeroSized = false)
+    (hx : -2147483648 ≤ area.tl.x ∧ area.tl.x < 0) (hw : -area.tl.x ≤ (area.size.w : Int)) :
+    Seeded.drawSubImageRejects im area = none := by
+  obtain ⟨_, _⟩ := hx
+  unfold Seeded.drawSubImageRejects
+  simp only [hz, Bool.false_eq_true, ↓reduceIte]
+  have e : i32AsU32 area.tl.x = (area.tl.x + 4294967296).toNat := by
+    unfold i32AsU32; rw [if_neg (by omega)]
+  rw [e, chkU32_none (by omega)]
+  rfl
+
 end EG.Chk
